@@ -76,14 +76,14 @@ fn zsum(bases: u64, val: f64) -> Summary {
     Summary { total_items: 0, bases_covered: bases, min_val: val, max_val: val, sum: bases as f64 * val, sum_squares: bases as f64 * val * val }
 }
 
-// @harness c07_zoom_step_with_next
+// @harness c07_nosub_zoom_step
 // @props C07
-// @tier quick
+// @tier off
 // @kind core
 // @timeout 1200
 // @mem 24
 // @functions bigwigwrite::process_val_zoom (one call, one zoom level, a value that is not the last of its chromosome)
-// @bounds one step from an ARBITRARY live record satisfying the representation invariant; resolution 3; value length 0..=4; gap of any size; coordinates < 2^31; value fixed to 1.0 (so sum == covered bases); items_per_slot 8 (no mid-step flush)
+// @bounds one step from an ARBITRARY live record satisfying the representation invariant; resolution 3; value length 0..=4; gap of any size; coordinates < 2^31; live record built from 1.0s, incoming value 4.0 (constants: symbolic*symbolic float products do not finish); items_per_slot 8 (no mid-step flush)
 // @assumes invariant of the live record: start < end < start+size, end <= value.start, 1 <= bases_covered <= end-start
 // @stubs tokio Handle::spawn -> run now; mpsc Sender::poll_ready/start_send -> always-ready FIFO log
 // @cut f32 narrowing of the stored statistics (see c09 zoom section layout); several zoom levels at once (the loop body is per level); coordinates >= 2^31 (start+size overflow)
@@ -94,21 +94,28 @@ fn zsum(bases: u64, val: f64) -> Summary {
 #[kani::stub(futures::channel::mpsc::Sender::poll_ready, fake_poll_ready)]
 #[kani::stub(futures::channel::mpsc::Sender::start_send, fake_start_send)]
 #[kani::stub(alloc::vec::Vec::push, push_within_capacity)]
-fn c07_zoom_step_with_next() {
+fn c07_nosub_zoom_step() {
     zoom_step_with_next(3, 3, 4);
 }
 
-// @harness c07_zoom_step_with_next_sub
+// @harness c07_zoom_step_with_next
 // @props C07
-// @tier off
-// @timeout 1200
+// @tier quick
+// @kind core
+// @timeout 1500
 // @mem 24
+// @functions bigwigwrite::process_val_zoom (one call, one zoom level, a value that is not the last of its chromosome)
+// @bounds one step from an ARBITRARY live record satisfying the representation invariant; resolution 3; value length 0..=4; gap of any size; coordinates < 2^31; live record built from 1.0s, incoming value 4.0 (constants: symbolic*symbolic float products do not finish); items_per_slot 8 (no mid-step flush)
+// @assumes invariant of the live record: start < end < start+size, end <= value.start, 1 <= bases_covered <= end-start
+// @stubs tokio Handle::spawn -> counted/discarded (asserted never to happen); Vec::push -> push within capacity (asserted); the channel hand-off `X.send(handle).await.expect(..)` is replaced in the scratch copy by `direct_send(&mut X, handle)` (one source substitution: removes the await point inside the tiling loop; with the stubbed Sender alone the same harness did not finish in 20 min)
+// @cut f32 narrowing (c09_zoom_section_layout); several zoom levels at once (the loop body is per level); coordinates >= 2^31
+// @witness cover: a gap longer than the resolution; a value spanning 3 records; a value ending exactly on a record boundary
 // @sub src/bbi/bigwigwrite.rs ::: zoom_item.channel.send(handle).await.expect("Couln't send"); ::: crate::verif_support::env::direct_send(&mut zoom_item.channel, handle);
 #[kani::proof]
 #[kani::unwind(6)]
 #[kani::stub(tokio::runtime::Handle::spawn, fake_spawn_skip)]
 #[kani::stub(alloc::vec::Vec::push, push_within_capacity)]
-fn c07_zoom_step_with_next_sub() {
+fn c07_zoom_step_with_next() {
     zoom_step_with_next(3, 3, 4);
 }
 
@@ -124,7 +131,8 @@ fn zoom_step_with_next(size_lo: u32, size_hi: u32, maxlen: u32) {
     }
     let ns: u32 = kani::any();
     kani::assume(ns >= ve);
-    let cur = Value { start: vs, end: ve, value: 1.0 };
+    // the live record was built from values of 1.0; the incoming value is 4.0
+    let cur = Value { start: vs, end: ve, value: 4.0 };
     let next = Value { start: ns, end: ns, value: 1.0 };
     let mut env = Env::new();
     let (ztx, _zrx) = futures::channel::mpsc::channel::<Msg>(4);
@@ -169,8 +177,12 @@ fn zoom_step_with_next(size_lo: u32, size_hi: u32, maxlen: u32) {
                 assert!(rec.start >= vs, "[gap] a record starts in the gap before the value (bases without data)");
             }
             assert!(rec.summary.bases_covered == inter + carried, "[bases] covered-base count differs from the data inside the record");
-            assert!(rec.summary.sum == (inter + carried) as f64, "[sum] sum differs from the data inside the record");
-            assert!(rec.summary.min_val == 1.0 && rec.summary.max_val == 1.0, "[minmax] min/max");
+            assert!(rec.summary.sum == (inter * 4 + carried) as f64, "[sum] sum differs from the data inside the record");
+            assert!(rec.summary.sum_squares == (inter * 16 + carried) as f64, "[sumsq] sum of squares differs from the data inside the record");
+            // min/max over the values that actually have bases inside the record
+            let want_min = if carried > 0 { 1.0 } else { 4.0 };
+            let want_max = if inter > 0 { 4.0 } else { 1.0 };
+            assert!(rec.summary.min_val == want_min && rec.summary.max_val == want_max, "[minmax] min/max differ from the values inside the record's span");
             total += rec.summary.bases_covered;
             prev_end = rec.end;
             first = false;
@@ -263,7 +275,7 @@ fn c06_bigwig_summary_step() {
     summary_step((-2.5f32).to_bits());
 }
 
-// @harness c06_bigwig_summary_step_big
+// @harness c06_bigwig_big_summary_step
 // @props C06
 // @tier thorough
 // @kind stretch
@@ -278,7 +290,7 @@ fn c06_bigwig_summary_step() {
 #[kani::stub(futures::channel::mpsc::Sender::poll_ready, fake_poll_ready)]
 #[kani::stub(futures::channel::mpsc::Sender::start_send, fake_start_send)]
 #[kani::stub(alloc::fmt::format, fake_format)]
-fn c06_bigwig_summary_step_big() {
+fn c06_bigwig_big_summary_step() {
     summary_step((3.0e30f32).to_bits());
 }
 
